@@ -614,15 +614,10 @@ func init() {
 		return TupleV{concStr(""), in.tt.False}, nil
 	})
 	reg("time.Now", func(in *Interp, g *Goroutine, fn *ssa.Function, args []Value) (Value, *tailCall) {
-		d := in.freshSym(64, "engine", "clock")
-		lo := in.lastClock
-		if lo == nil {
-			lo = in.tt.Const(64, 0)
-		}
-		in.assume(in.tt.And(in.tt.Cmp(OpSle, lo, d), in.tt.Cmp(OpSle, d, in.tt.Const(64, 1<<31))))
-		in.lastClock = d
-		// wall=0, ext=seconds since year 1 (2020-01-01 + d), loc=nil (UTC)
-		return AggV{in.tt.Const(64, 0), in.tt.Bin(OpAdd, in.tt.Const(64, 63713433600), d), PtrV{}}, nil
+		// a deterministic, strictly increasing clock (2020-01-01 + one second per call); time is
+		// made symbolic explicitly by harnesses that quantify over it
+		in.clockTicks++
+		return AggV{in.tt.Const(64, 0), in.tt.Const(64, uint64(63713433600+in.clockTicks)), PtrV{}}, nil
 	})
 	reg("time.Sleep", func(in *Interp, g *Goroutine, fn *ssa.Function, args []Value) (Value, *tailCall) { return nil, nil })
 	reg("time.Since", func(in *Interp, g *Goroutine, fn *ssa.Function, args []Value) (Value, *tailCall) {
